@@ -250,12 +250,12 @@ theorem code_antecedentLoad_partial (e : EngineInfo) (post : String → Py.M Str
     | error x => simp only [bind, Except.bind]
     | ok s =>
       simp only [bind, Except.bind, antecedentLoadPostfix]
-      have hl := code_aLoop e post text hterms (Py.split s) fVariable []
-        { self_expression := .none, postfix_ := s, state := 1, stack := [], proposition := Py.Alias.none,
-          variables_ := e.vars }
-        ⟨rfl, rfl, Or.inl ⟨rfl, rfl⟩⟩
+      generalize hg : Antecedent_load.loop1 e post text (Py.split s) _ = g
+      have hl : AAgree e (aLoop e (Py.split s) fVariable []) g := by
+        rw [← hg]
+        exact code_aLoop e post text hterms (Py.split s) fVariable [] _ ⟨rfl, rfl, Or.inl ⟨rfl, rfl⟩⟩
+      clear hg
       revert hl
-      generalize Antecedent_load.loop1 e post text (Py.split s) _ = g
       generalize aLoop e (Py.split s) fVariable [] = r
       intro hl
       cases r with
